@@ -375,7 +375,26 @@ let loc_cmd (toks : string list) : string option =
        | _ -> Some "UNDEFINED")
   | _ -> None
 
-let handlers : (string list -> string option) list ref = ref [loc_cmd; index_cmd; tree_cmd; exec_cmd; exectsm_cmd; execper_cmd; execcnt_cmd; mem_cmd; p2p_cmd]
+let execpertsm_cmd (toks : string list) : string option =
+  match toks with
+  | "execpertsm" :: d :: h :: b :: mode :: k :: stop :: ns :: rest ->
+      let di = int_of_string d and ns_i = int_of_string ns in
+      let snums = take (ns_i * di) rest in
+      (match drop (ns_i * di) rest with
+       | nt :: tnums ->
+           (match parse_tree ("tree" :: d :: "1" :: h :: b :: mode :: ns :: snums), parse_tree ("tree" :: d :: "1" :: h :: b :: mode :: nt :: tnums) with
+            | Some (_, _, _, ts, _, _), Some (_, _, _, tt, _, _) ->
+                let dn = nat_of_int di in
+                let kz = z_of_string k in
+                let calls = periodic_run_tsm dn kz (z_of_string stop) ts tt in
+                let strs = List.map (function Real c -> call_str c | Top c -> tcall_str c) calls in
+                let (lo, hi) = repetition_interval kz in
+                Some (dump_tree ts ^ " || " ^ dump_tree tt ^ " || " ^ String.concat " ; " strs ^ " || I " ^ zs lo ^ " " ^ zs hi ^ " " ^ zs (nb_repetitions kz))
+            | _ -> None)
+       | [] -> None)
+  | _ -> None
+
+let handlers : (string list -> string option) list ref = ref [loc_cmd; execpertsm_cmd; index_cmd; tree_cmd; exec_cmd; exectsm_cmd; execper_cmd; execcnt_cmd; mem_cmd; p2p_cmd]
 
 let () =
   let ic = open_in Sys.argv.(1) in
